@@ -87,7 +87,7 @@ func Generate(r *sim.Rng, prop, tier string, idx int) *sim.Case {
 			hangs = true // a hanging call occupies a timer worker: the second lock's lease would not be kept either
 		}
 	}
-	if c.Mode != "enum" && !hangs && c.Knobs["noise_lock"] == 0 && r.Chance(1, 6) {
+	if c.Mode != "enum" && c.Mode != "orphan" && !hangs && c.Knobs["noise_lock"] == 0 && r.Chance(1, 6) {
 		// the providers also serve a second lock with a related name
 		lease := time.Duration(c.Knobs["lease_ns"])
 		c.Knobs["noise_lock"] = int64(1 + r.Intn(6))
@@ -105,7 +105,7 @@ func Generate(r *sim.Rng, prop, tier string, idx int) *sim.Case {
 			c.Knobs["cas_latency_ns"] = int64(lease / 20)
 		}
 	}
-	if prop != "C04" && c.Mode != "enum" && c.Knobs["bg_timers"] == 0 && r.Chance(1, 6) {
+	if prop != "C04" && c.Mode != "enum" && c.Mode != "orphan" && c.Knobs["bg_timers"] == 0 && r.Chance(1, 6) {
 		// the timeout package is process-wide: other code uses it as well
 		lease := time.Duration(c.Knobs["lease_ns"])
 		c.Knobs["bg_timers"] = int64(1 + r.Intn(3))
@@ -136,6 +136,45 @@ func genC01(r *sim.Rng, c *sim.Case, tier string, idx int) {
 		}
 		k := idx / 1
 		c.Faults = []sim.Fault{{Seam: "acq", Kind: sim.Pick(r, "req_lost", "reply_lost"), Ord: int64(1 + k%14)}}
+		return
+	}
+	if r.Chance(1, 8) {
+		// "orphan": the Delete of an Unlock is lost, the record of the finished tenure stays
+		// until its lease ends; the same Locker comes back around that instant while
+		// another Locker waits for it, and the storage answers slowly - whatever a
+		// Locker concludes from an answer may be out of date when it acts on it
+		c.Mode = "orphan"
+		c.Knobs["providers"] = 2
+		c.Knobs["lockers"] = 2
+		L := sim.Pick(r, lease/20, lease/8)
+		c.Knobs["acq_reply_latency_ns"] = int64(L)
+		h := time.Duration(r.I64n(int64(lease / 3)))
+		x := time.Duration(r.I64n(int64(2*L))) - L/2
+		s := lease - x - L - h
+		c.Tasks = []sim.Task{
+			{Name: "t0", Ops: []sim.Op{
+				{K: "lockctx", E: -1, D: int64(h)},
+				{K: "sleep", D: int64(s)},
+				{K: "lockctx", E: -1, D: int64(lease / 2)},
+			}},
+			{Name: "t1", Ops: []sim.Op{
+				{K: "sleep", D: int64(lease/2) + r.I64n(int64(lease/4))},
+				{K: "lockctx", E: -1, D: int64(4*L) + r.I64n(int64(lease/2))},
+			}},
+		}
+		c.Knobs["locker_t0"] = 0
+		c.Knobs["locker_t1"] = 1
+		if r.Chance(1, 3) {
+			// a third party that only tries
+			c.Tasks = append(c.Tasks, sim.Task{Name: "t2", Ops: []sim.Op{
+				{K: "sleep", D: int64(lease) + r.I64n(int64(lease/2))},
+				{K: "trylock", D: int64(L)},
+				{K: "sleep", D: int64(L)},
+				{K: "trylock", D: int64(L)},
+			}})
+			c.Knobs["locker_t2"] = 1
+		}
+		c.Faults = []sim.Fault{{Seam: "acq", Kind: "req_lost", Ord: 2}}
 		return
 	}
 	c.Mode = "rand"
